@@ -49,6 +49,12 @@ class List(Expression):
         staging = out.var('staging', [])
 
         with out.WHILE(True):
+            # Check the upper bound before each attempt, so that a bound that
+            # is only known at parse time may also be zero.
+            if self.max_len is not None:
+                with out.IF(LEN(staging) == Code(self.max_len)):
+                    out += BREAK
+
             if self.expr.can_partially_succeed():
                 checkpoint = out.var('checkpoint', POS)
 
@@ -58,10 +64,6 @@ class List(Expression):
                 out += BREAK
 
             out += staging.append(RESULT)
-
-            if self.max_len is not None:
-                with out.IF(LEN(staging) == Code(self.max_len)):
-                    out += BREAK
 
         if not self.min_len or self.min_len == '0':
             out += RESULT << staging
